@@ -223,6 +223,8 @@ fn row(string: &[u8], spoiler: bool) -> Option<Row> {
     while offset < len && expect_more_cells {
         let cell_matched = scanners::table_cell(&string[offset..], spoiler).unwrap_or(0);
         let pipe_matched = scanners::table_cell_end(&string[offset + cell_matched..]).unwrap_or(0);
+        #[cfg(comrak_verif)]
+        crate::verif::add(7, 1 + cell_matched + pipe_matched);
 
         if cell_matched > 0 || pipe_matched > 0 {
             let mut cell = unescape_pipes(&string[offset..offset + cell_matched]);
@@ -232,6 +234,8 @@ fn row(string: &[u8], spoiler: bool) -> Option<Row> {
             let mut internal_offset = 0;
 
             while start_offset > paragraph_offset && string[start_offset - 1] != b'|' {
+                #[cfg(comrak_verif)]
+                crate::verif::bump(7);
                 start_offset -= 1;
                 internal_offset += 1;
             }
